@@ -64,6 +64,9 @@ func genC18(t *rapid.T) c18Case {
 		switch k {
 		case "add":
 			op.V = genSample().Draw(t, "v")
+			if c.Type != "min" && rapid.IntRange(0, 7).Draw(t, "zero") == 0 {
+				op.V = 0 // a zero sample (RTT >= 0 is the domain; the minimum type keeps 0 as its "unset" sentinel, DESIGN 6)
+			}
 		case "plus":
 			op.V = float64(rapid.IntRange(1, 1000).Draw(t, "c"))
 		}
